@@ -26,6 +26,10 @@ CHECKS = {
    text="Per explored pattern, the followpos-route automaton and the NFA-route automaton are both certified (proved checker, all strings) equal to the model's expression, hence to each other and — outside known finding D3 — to the documented meaning (three_way_agreement, three_way_agreement_guarded). Patterns stress nullable operands, empty-matching patterns and duplicated sub-expressions.",
    note=TB + "nullable/firstpos/lastpos/followpos are not modelled function by function: the automaton they produce is validated per instance for all strings; Berry-Sethi correctness for all patterns is not proved (partial).",
    tech="certified DFA-vs-regex checker applied to both routes (translation validation, all strings) + Coq three-way theorem"),
+ "C18": dict(cat="proof",
+   text="Coq theorems over ALL token sequences, on the table regenerated from parsing_table.go: the embedded table passes a proved static safety check (known-suffix analysis); hence for every accepted input the callback log is exactly the post-order of THE parse tree (tokens in source order, productions as a rightmost derivation in reverse), the tree applies one grammar production per interior node and has the tokens as leaves; a failing callback cuts the log at that call and its error is returned (for every callback predicate); ParseAndEvaluate's value stack is the tree-fold image of the node stack (arguments left to right, head position = first body symbol's). The three Go loops are tied to the model by replaying generated token streams (real scanner output, mutations, lexical-error endings, random sequences) and by injecting a failure at every callback of short streams.",
+   note=TB + "The driver loops are modelled by hand (Cfg/LR.v); the translated table is additionally executed against ACTION/GOTO on every (state, symbol) pair. The known-suffix annotation is computed by the harness and CHECKED by the kernel (safe_check), not trusted.",
+   tech="Coq proof: LR safety check + soundness/post-order/abort/plumbing theorems on the regenerated table; differential correspondence with failure injection"),
 }
 
 ORDER = sorted(CHECKS)
